@@ -24,11 +24,14 @@ try:
     if rc: print("BUILD-FAILED", out); sys.exit(3)
     # existing tests with the change (cluster tests are sleep-based and flaky under load: up to 3 attempts)
     suite = []
-    for attempt in range(5):
-        rc, out = run([NS, "go", "test", "-vet=off", "-count=1", "./actor/", "./remote/", "./ringbuffer/", "./safemap/", "./cluster/"], cwd=wt)
-        failed = sorted(set(re.findall(r"--- FAIL: (\S+)", out)))
-        suite.append({"rc": rc, "failed": failed})
-        if rc == 0: break
+    # the four fast packages once (twice if a 1 ms-deadline test trips under load), then the cluster package, whose
+    # TestGetActiveByID/ByKind rely on a 10 ms sleep and flake on the unmodified code too: up to 8 attempts
+    for pk, attempts in (["./actor/", "./remote/", "./ringbuffer/", "./safemap/"], 3), (["./cluster/"], 8):
+        for attempt in range(attempts):
+            rc, out = run([NS, "go", "test", "-vet=off", "-count=1", "-p", "1"] + pk, cwd=wt)
+            failed = sorted(set(re.findall(r"--- FAIL: (\S+)", out)))
+            suite.append({"pkgs": " ".join(pk), "rc": rc, "failed": failed})
+            if rc == 0: break
     meta["existing_tests_with_change"] = suite
     # demo
     demos = [f for f in glob.glob(os.path.join(seed, "*_test.go"))]
@@ -57,7 +60,7 @@ try:
     without = demo()
     meta["demo_rc_with_change"] = with_change
     meta["demo_rc_without_change"] = without
-    ok = all(r != 0 for r in with_change) and all(r == 0 for r in without) and any(s["rc"] == 0 for s in suite)
+    ok = all(r != 0 for r in with_change) and all(r == 0 for r in without) and all(any(s["rc"] == 0 for s in suite if s["pkgs"] == pk) for pk in set(s["pkgs"] for s in suite))
     meta["confirmed"] = ok
     notes = os.path.join(seed, "notes.md")
     dst = os.path.join("/verif/seeded", sid)
